@@ -1377,6 +1377,9 @@ def recipe_refs_ok(r, pool):
 # --------------------------------------------------------------------------------- driver
 def run_program(program):
     """Execute one simulated history; returns a JSON-able result record."""
+    if "threads" in program:  # caller threads under the baton scheduler (sim/threads.py)
+        from . import threads
+        return threads.run(program)
     ctx = Ctx(program)
     status, viol, err = "ok", None, None
     try:
